@@ -30,7 +30,8 @@ ChangeSource ==
      \/ \E v \in {"dot", "comma"} : Set([b EXCEPT !.sources[i].dec = v])
      \/ \E v \in BOOLEAN : Set([b EXCEPT !.sources[i].header = v])
      \/ \E v \in {"comma", "semicolon", "tab"} : Set([b EXCEPT !.sources[i].delim = v])
-     \/ \E v \in {"present", "missing"} : Set([b EXCEPT !.sources[i].status = v])
+     \* missing: no such file; unreadable: the path exists but cannot be read as a statement (it is a directory)
+     \/ \E v \in {"present", "missing", "unreadable"} : Set([b EXCEPT !.sources[i].status = v])
 ChangeBudget ==
   \/ \E v \in {"none", "rules", "csv"} : Set([b EXCEPT !.rules = v])
   \/ \E v \in {"first_match", "most_specific"} : Set([b EXCEPT !.mode = v])
